@@ -58,3 +58,39 @@ Proof. intros. exists f20_table. vm_compute. discriminate. Qed.
 
 Lemma ctable_eqb_refl_on_witness : ctable_eqb (optimize_rows f20_table) [mkRow 1 [mkCell 1 false false; mkCell 1 true true]; mkRow 1 [mkCell 2 true true]] = true.
 Proof. vm_compute. reflexivity. Qed.
+
+(* ---- boolean equality reflects equality ---- *)
+Lemma list_eqb_eq : forall X (e : X -> X -> bool), (forall x y, e x y = true -> x = y) ->
+  forall a b, list_eqb e a b = true -> a = b.
+Proof.
+  intros X e He. induction a as [|x a IH]; destruct b as [|y b]; cbn; intro H; try discriminate; [reflexivity|].
+  apply andb_true_iff in H. destruct H as [H1 H2]. f_equal; [apply He; exact H1|apply IH; exact H2].
+Qed.
+
+Lemma ccell_eqb_eq : forall x y, ccell_eqb x y = true -> x = y.
+Proof.
+  intros [r s h] [r' s' h']. unfold ccell_eqb. cbn. intro H.
+  apply andb_true_iff in H. destruct H as [H H3]. apply andb_true_iff in H. destruct H as [H1 H2].
+  apply Nat.eqb_eq in H1. apply Bool.eqb_prop in H2. apply Bool.eqb_prop in H3. subst. reflexivity.
+Qed.
+
+Lemma crow_eqb_eq : forall x y, crow_eqb x y = true -> x = y.
+Proof.
+  intros [r c] [r' c']. unfold crow_eqb. cbn. intro H. apply andb_true_iff in H. destruct H as [H1 H2].
+  apply Nat.eqb_eq in H1. apply (list_eqb_eq _ _ ccell_eqb_eq) in H2. subst. reflexivity.
+Qed.
+
+Lemma ctable_eqb_eq : forall a b, ctable_eqb a b = true -> a = b.
+Proof. exact (list_eqb_eq _ _ crow_eqb_eq). Qed.
+
+Lemma sweep_optimize_idempotent : forallb optimize_idempotent_on small_tables = true.
+Proof. vm_compute. reflexivity. Qed.
+
+(* on the small scope the PINNED export, too, is repeatable: a second export finds the table as the first left it *)
+Lemma md_pinned_repeatable_small : forall A (render : ctable -> A) t, In t small_tables ->
+  md_export_pinned A render (fst (md_export_pinned A render t)) = md_export_pinned A render t.
+Proof.
+  intros A render t HI. unfold md_export_pinned. cbn [fst].
+  pose proof (proj1 (forallb_forall optimize_idempotent_on small_tables) sweep_optimize_idempotent t HI) as H.
+  apply ctable_eqb_eq in H. rewrite H. reflexivity.
+Qed.
